@@ -1,6 +1,7 @@
 (* C08 — Network-layer headers and messages encode and decode faithfully.
    Property theorems only; proofs live in Bac.NpciFacts / Bac.NpciMsgFacts, the model in Bac.Npci. *)
-From Bac Require Import Base Npci NpciFacts NpciMsgFacts NpciSound.
+From Bac Require Import Base Npci NpciFacts NpciMsgFacts NpciSound NpciBodyFacts NpciRegistry.
+From BacGen Require Import NpduRegistry.
 Open Scope N_scope.
 
 (* every well-formed header (version 1, priority < 4, nets < 65535, MACs of 1..255 octets, hop count
@@ -150,6 +151,86 @@ Proof.
 Qed.
 Print Assumptions C08_registry.
 
+(* the registry as translated from the working tree (coq/gen/NpduRegistry.v = npdu.npdu_types, written by
+   translator/gen_npdu.py on every run): it is the model's table, the model's dispatch has a decoder exactly
+   for its keys, and the decoder under key t builds the class the table has under t *)
+Theorem C08_registry_translated :
+  npdu_types = model_registry
+  /\ (forall t, In t (map fst npdu_types) <-> forall bs, dec_msg t bs <> Err KeyErr)
+  /\ (forall t bs, ~ In t (map fst npdu_types) -> dec_msg t bs = Err KeyErr)
+  /\ (forall t bs m r, dec_msg t bs = Ok (m, r) -> In (t, msg_class_name m) npdu_types)
+  /\ NoDup (map fst npdu_types) /\ NoDup (map snd npdu_types).
+Proof.
+  exact (conj registry_table_exact (conj registry_dispatch (conj registry_unregistered
+        (conj registry_class registry_nodup)))).
+Qed.
+Print Assumptions C08_registry_translated.
+
+(* ---- message bodies cut short.
+   Fixed-layout messages — I-Could-Be-Router (3 octets), Reject-Message (3), Establish-Connection (3),
+   Disconnect-Connection (2), Network-Number-Is (3), Initialize-Routing-Table and its Ack (count octet +
+   entries; What-Is-Network-Number has an empty body and no proper prefix): EVERY proper prefix of the
+   encoded body is refused with DecodingError — in particular a routing table is never returned shorter *)
+Theorem C08_msg_truncated_fixed : forall m bs k,
+  wf_msg m = true -> fixed_msg m = true -> enc_msg m = Ok bs -> (k < length bs)%nat ->
+  dec_msg (msg_type m) (firstn k bs) = Err DecodingError.
+Proof. exact msg_truncated_fixed. Qed.
+Print Assumptions C08_msg_truncated_fixed.
+
+(* network lists — I-Am-Router (1), Router-Busy (4), Router-Available (5), body = 2 octets per network:
+   the first k octets decode to the first k/2 networks exactly when k is even (the cut falls on an element
+   boundary) and are refused with DecodingError when k is odd *)
+Theorem C08_msg_truncated_nets : forall t c l k,
+  nets_ctor t = Some c -> wf_nets l = true -> (k <= length (put_nets l))%nat ->
+  dec_msg t (firstn k (put_nets l))
+  = if Nat.even k then Ok (c (firstn (Nat.div2 k) l), []) else Err DecodingError.
+Proof. exact msg_truncated_nets. Qed.
+Print Assumptions C08_msg_truncated_nets.
+
+(* Who-Is-Router (0): the network is optional — an empty body is the form without network, one octet is
+   refused, two or more octets give the network and leave the rest; so of the two proper prefixes of an
+   encoded network the empty one decodes to "no network" and the 1-octet one is refused, and trailing
+   octets are left in the buffer *)
+Theorem C08_msg_who_is_router_shapes :
+  dec_msg 0 [] = Ok (WhoIsRouter None, [])
+  /\ (forall a, dec_msg 0 [a] = Err DecodingError)
+  /\ (forall a b x, dec_msg 0 (a :: b :: x) = Ok (WhoIsRouter (Some (a * 256 + b)), x))
+  /\ (forall n, n < 65536 ->
+        enc_msg (WhoIsRouter (Some n)) = Ok (put_short n)
+        /\ dec_msg 0 (firstn 0 (put_short n)) = Ok (WhoIsRouter None, [])
+        /\ dec_msg 0 (firstn 1 (put_short n)) = Err DecodingError
+        /\ forall x, dec_msg 0 (put_short n ++ x) = Ok (WhoIsRouter (Some n), x)).
+Proof.
+  exact (conj (proj1 who_is_shapes) (conj (proj1 (proj2 who_is_shapes))
+        (conj (proj2 (proj2 who_is_shapes)) who_is_truncated_trailing))).
+Qed.
+Print Assumptions C08_msg_who_is_router_shapes.
+
+(* ---- trailing octets.  After a fixed-layout message they are left untouched in npdu.pduData ... *)
+Theorem C08_msg_trailing_fixed : forall m, wf_msg m = true -> fixed_msg m = true ->
+  exists bs, enc_msg m = Ok bs /\ forall x, dec_msg (msg_type m) (bs ++ x) = Ok (m, x).
+Proof. exact msg_trailing_fixed. Qed.
+Print Assumptions C08_msg_trailing_fixed.
+
+(* ... after a network list they are read as further networks (the decoder consumes the whole buffer):
+   the result is the list extended by what the extra octets decode to, or DecodingError if those are odd *)
+Theorem C08_msg_trailing_nets : forall t c l x, nets_ctor t = Some c -> wf_nets l = true ->
+  enc_msg (c l) = Ok (put_nets l)
+  /\ dec_msg t (put_nets l ++ x) = do l' <- dec_nets x; Ok (c (l ++ l'), []).
+Proof. exact msg_trailing_nets. Qed.
+Print Assumptions C08_msg_trailing_nets.
+
+(* ---- decoding is a function of the octets alone: in any two histories of operations (decodes of any
+   message class, header decodes, encodes) the same operation gives the same result, namely the result it
+   gives on its own.  Trivial here (run_history is a map) — the content is that the implementation is
+   compared with THIS on multi-message histories in one process (harness kind `history`) *)
+Theorem C08_decode_history_independent : forall before before' after o,
+  nth (length before) (run_history (before ++ o :: after)) (run_op o) = run_op o
+  /\ nth (length before) (run_history (before ++ o :: after)) (run_op o)
+     = nth (length before') (run_history (before' ++ o :: [])) (run_op o).
+Proof. exact history_independent. Qed.
+Print Assumptions C08_decode_history_independent.
+
 (* ---- non-vacuity: the hypotheses are satisfiable, with every optional field exercised *)
 Example C08_wf_examples :
   forallb wf_npci
@@ -185,4 +266,18 @@ Example C08_msg_examples :
      = Ok [1; 0x80; 6; 1; 0; 5; 1; 2; 1; 2]
   /\ dec_frame [1; 0x80; 6; 1; 0; 5; 1; 2; 1; 2]
      = Ok (0x80, mkNpci 1 false 0 None None None (Some 6) None, InitRT [mkRte 5 1 [1;2]], []).
+Proof. vm_compute. repeat split; reflexivity. Qed.
+
+Example C08_body_examples :
+  fixed_msg (InitRT [mkRte 5 1 [1;2]; mkRte 6 2 []]) = true
+  /\ enc_msg (InitRT [mkRte 5 1 [1;2]; mkRte 6 2 []]) = Ok [2; 0; 5; 1; 2; 1; 2; 0; 6; 2; 0]
+  /\ dec_msg 6 [2; 0; 5; 1; 2; 1; 2; 0; 6; 2] = Err DecodingError          (* last octet missing *)
+  /\ dec_msg 6 [2; 0; 5; 1; 2; 1; 2] = Err DecodingError                   (* second entry missing *)
+  /\ dec_msg 6 [2; 0; 5; 1; 2; 1; 2; 0; 6; 2; 0; 9] = Ok (InitRT [mkRte 5 1 [1;2]; mkRte 6 2 []], [9])
+  /\ nets_ctor 5 = Some RouterAvailable
+  /\ dec_msg 5 (firstn 4 (put_nets [1; 2; 3])) = Ok (RouterAvailable [1; 2], [])
+  /\ dec_msg 5 (firstn 3 (put_nets [1; 2; 3])) = Err DecodingError
+  /\ dec_msg 5 (put_nets [1; 2] ++ [0; 9]) = Ok (RouterAvailable [1; 2; 9], [])
+  /\ run_history [OpDecMsg 5 [0;1]; OpDecMsg 5 [0;2]; OpEncMsg (RouterAvailable [])]
+     = [RDecMsg (Ok (RouterAvailable [1], [])); RDecMsg (Ok (RouterAvailable [2], [])); REncMsg (Ok [])].
 Proof. vm_compute. repeat split; reflexivity. Qed.
